@@ -1,8 +1,11 @@
-import XehModel.Driver.Codec
+import XehModel.Driver.VMCodec
 
 namespace Xeh.Driver.C15
 
-/-- stub: not modelled yet -/
-def handle (_args : List String) : String := "unsupported"
+/-- `C15 vm …` : machine-level script (see Driver/VMCodec.lean) -/
+def handle (args : List String) : String :=
+  match args with
+  | "vm" :: rest => Xeh.VMCodec.handleVm rest
+  | _ => "bad-op"
 
 end Xeh.Driver.C15
